@@ -617,11 +617,14 @@ pub fn gen_case(r: &mut Rng, p: &Profile) -> Case {
                             }
                             3 => {
                                 inflight.remove(i);
-                                suback(9, pid, &[*r.pick(&[0u8, 1, 2, 0x80])])
+                                // one code per filter; mixed grants and refusals in either order
+                                let codes: Vec<u8> = (0..r.range(1, 3)).map(|_| *r.pick(&[0u8, 0, 1, 2, 0x80, 0x87, 0x97])).collect();
+                                suback(9, pid, &codes)
                             }
                             _ => {
                                 inflight.remove(i);
-                                suback(11, pid, &[*r.pick(&[0u8, 0x11, 0x80])])
+                                let codes: Vec<u8> = (0..r.range(1, 3)).map(|_| *r.pick(&[0u8, 0, 0x11, 0x80, 0x87])).collect();
+                                suback(11, pid, &codes)
                             }
                         }
                     } else {
